@@ -41,10 +41,21 @@ def Version.idx : Version → Nat
   | .phase0 => 0 | .altair => 1 | .bellatrix => 2 | .capella => 3 | .deneb => 4 | .electra => 5
   | .fulu => 6
 
+/-- `Version.name` as characters (strings do not reduce in the kernel; the header is a `List Char`). -/
+def Version.chars : Version → List Char
+  | .phase0 => ['p','h','a','s','e','0'] | .altair => ['a','l','t','a','i','r']
+  | .bellatrix => ['b','e','l','l','a','t','r','i','x'] | .capella => ['c','a','p','e','l','l','a']
+  | .deneb => ['d','e','n','e','b'] | .electra => ['e','l','e','c','t','r','a']
+  | .fulu => ['f','u','l','u']
+
+/-- `strings.ToLower` on ASCII (the header values the driver sends are ASCII). -/
+def lowerAscii (c : Char) : Char := if 'A' ≤ c ∧ c ≤ 'Z' then Char.ofNat (c.toNat + 32) else c
+
 /-- `version.UnmarshalJSON([]byte("\"" + header.Get(versionHeader) + "\""))`: the quoted header is
 lower-cased and looked up in `dataVersionMap` (seven entries; `"unknown"` is not one). An absent
-header reads as `""`. -/
-def parseVersion (h : String) : Option Version := Version.all.find? (fun v => v.name == h.toLower)
+header reads as the empty string. -/
+def parseVersion (h : List Char) : Option Version :=
+  Version.all.find? (fun v => v.chars == h.map lowerAscii)
 
 inductive Enc where
   | json | ssz
@@ -193,11 +204,15 @@ def unmarshalStatus (enc : Enc) : Decoded → Status
   | .noSsz => .noSsz415
   | .ok _ => .ok200
 
+inductive Method where
+  | post | other
+  deriving DecidableEq, Repr
+
 structure Request (β : Type) where
   route   : Route
-  method  : String
+  method  : Method
   ct      : CtHdr
-  version : String   -- first value of `Eth-Consensus-Version`, `""` if absent
+  version : List Char   -- first value of `Eth-Consensus-Version`, empty if absent
   body    : β
 
 /-- The part of the router that does not look at the body: either the answer, or the question put to
@@ -206,7 +221,7 @@ alone) and the version of the target type (from the version header alone; `none`
 whose bodies are not versioned). -/
 def decodeArgs {β : Type} (rq : Request β) : Except Status (Endpoint × Enc × Option Version) :=
   -- gorilla/mux: the route has `Methods(POST)`; another method matches only the catch-all proxy
-  if rq.method ≠ "POST" then .error .proxied else
+  if rq.method ≠ .post then .error .proxied else
   match contentType rq.ct with
   | none => .error .media415
   | some enc =>
@@ -275,16 +290,15 @@ def statusOf : Res → Status
   | _ => .ise500     -- no Component error is an apiError
 
 /-- The Component behind the router. Elements are processed in order with early return; a nil
-element is dereferenced when its turn comes. -/
+element is dereferenced when its turn comes (after the elements before it passed their checks). -/
 def component (verify : VerifyFn) (L : Lock) (env : AttEnv) (idx : ShareIdx) (nsub : Nat)
     (ord : List GKey → List GKey) (failAt : Option Nat) (r : Route) (ep : Endpoint)
     (elems : List Elem) : Status × List Call :=
-  let opts := elems.map (toItem env)
-  let before := (opts.takeWhile Option.isSome).filterMap id
-  if before.length = opts.length then
-    let res := admitVC verify L idx nsub ord failAt ep before
+  if !elems.contains .nil then
+    let res := admitVC verify L idx nsub ord failAt ep (elems.filterMap (toItem env))
     (statusOf res.1, res.2)
   else
+    let before := (elems.takeWhile (· != .nil)).filterMap (toItem env)
     match firstFail (before.map (checkItem verify L idx ep)) with
     | some _ => (.ise500, [])
     | none => (if r.nilPanics then .panic else .ise500, [])
